@@ -84,6 +84,13 @@ fn main() {
                 let (out, n) = threads::tokio_multi_thread(&gs, mix(seed, it as u64), 8);
                 execs += n;
                 found.extend(out);
+                // the same graphs: a stream handed from thread to thread between polls
+                for k in 0..4u64 {
+                    let (out, h) = threads::stream_handoff(&gs, mix(seed ^ 0x4a6d, it as u64 * 4 + k));
+                    execs += 1;
+                    events += h;
+                    found.extend(out);
+                }
             }
         }
         "runtime" => {
